@@ -36,13 +36,18 @@ func with(extra ...string) []string {
 
 var props = map[string]propSpec{
 	"C01": {Harnesses: []harnessSpec{
-		{Pkg: "registration", Fn: "VerifC01NodeLed", Validate: 8, MustReach: []string{"issued"}},
+		{Pkg: "registration", Fn: "VerifC01NodeLed", Validate: 8, MustReach: []string{"issued", "not-issued"}, Panics: true},
+		{Pkg: "registration", Fn: "VerifC01Token", Validate: 8, MustReach: []string{"issued", "not-issued"}, Panics: true},
+		{Pkg: "registration", Fn: "VerifC01Wrapped", Validate: 8, MustReach: []string{"issued", "not-issued"}, Panics: true},
+		{Pkg: "registration", Fn: "VerifC01Rewrapped", Validate: 8, MustReach: []string{"issued", "not-issued"}, Panics: true},
 	}, Assumptions: with(), Explanation: "FetchNodeCredentials executed from SSA against a marshal-based storage with symbolic records and a well-signed symbolic request"},
 	"C02": {Harnesses: []harnessSpec{
 		{Pkg: "protocol", Fn: "VerifC02Auth", Validate: 8, MustReach: []string{"authenticated", "rejected"}},
 	}, Assumptions: with("TLS handshake contract model (DESIGN 3.5); native twin is a real crypto/tls client over net.Pipe"), Explanation: "real InterceptingListener.Accept under the handshake contract model with an adversarial peer"},
 	"C03": {Harnesses: []harnessSpec{
-		{Pkg: "registration", Fn: "VerifC03Validate", Validate: 16},
+		{Pkg: "registration", Fn: "VerifC03Validate", Validate: 16, MustReach: []string{"accepted", "rejected"}, Panics: true},
+		{Pkg: "registration", Fn: "VerifC03EntryPoints", Validate: 16, MustReach: []string{"authorize-accepted", "authorize-rejected", "fetch-done"}, Panics: true},
+		{Pkg: "registration", Fn: "VerifC03NodeSide", Validate: 4, MustReach: []string{"own-request-accepted", "own-request-rejected"}},
 	}, Assumptions: with(), Explanation: "validateFetchRequestCommon with every bundle field, signature provenance, skew and clock symbolic"},
 	"C04": {Harnesses: []harnessSpec{
 		{Pkg: "rotation", Fn: "VerifC04Certificates", Validate: 4},
